@@ -131,6 +131,20 @@ def rule_err_map(ctx, cfg, F):
                     c = op_const(lab["b"]) if op_const(lab["b"]) is not None else op_const(lab["a"])
                     if c is not None:
                         yield ("code", c, lab["truth"] if lab["op"] == "Eq" else not lab["truth"])
+                elif lab["kind"] == "callbool" and lab["callee"].endswith("::contains") and lab["truth"] and lab["args"]:
+                    # `[EAGAIN, EWOULDBLOCK].contains(&code)`: the code is one of the constants of the array literal
+                    la = op_local(lab["args"][0])
+                    for _ in range(6):
+                        ds_ = [d for d in f.defs().get(la, []) if not f.is_cleanup(d[0])] if la is not None else []
+                        if len(ds_) != 1 or ds_[0][1] is None:
+                            break
+                        rv_ = ds_[0][2]["rv"]
+                        if rv_["r"] == "agg" and "array" in rv_["kind"]:
+                            for a_ in rv_["a"]:
+                                if op_const(a_) is not None:
+                                    yield ("code", op_const(a_), True)
+                            break
+                        la = rv_["pl"]["l"] if rv_["r"] in ("ref", "raw") else (op_local(rv_["a"][0]) if rv_["r"] in ("use", "cast") else None)
                 elif lab["kind"] == "callbool" and lab["callee"].endswith("::channel_is_closed"):
                     # the error type's own closed predicate (its body is checked to test the closed variant)
                     if lab["truth"]:
@@ -202,6 +216,13 @@ def rule_inproc_classes(ctx, cfg, F):
                         yield ("cb", v)
                 if lab["kind"] in ("variant", "variant_not") and lab.get("adt") == "std::result::Result" and lab.get("variant"):
                     yield ("res", lab["variant"])
+                if lab["kind"] == "callbool" and "crossbeam_channel" in lab["callee"]:
+                    # the error's own predicates: `e.is_timeout()`, `e.is_disconnected()`, `e.is_empty()` (two-variant errors: not one is the other)
+                    short = lab["callee"].split("::")[-1]
+                    pos = {"is_timeout": "Timeout", "is_disconnected": "Disconnected", "is_empty": "Empty"}.get(short)
+                    if pos:
+                        other = "Disconnected" if pos in ("Timeout", "Empty") else ("Timeout" if "RecvTimeoutError" in lab["callee"] else "Empty")
+                        yield ("cb", pos if lab["truth"] else other)
 
         def block_fact(b):
             for st in f.stmts(b):
